@@ -318,6 +318,7 @@ func init() {
 			ruleCRASH6(c)
 			ruleCRASH7(c)
 			ruleCRASH8(c)
+			ruleCRASH9(c)
 			ruleEMIT1(c, "CRASH-6")
 			ruleBIND2(c)
 		},
